@@ -32,6 +32,7 @@ SHAPES = [
     {'req': ['x'], 'opt': [['y', ['s', 'd']]], 'varargs': True},
     {'req': ['x'], 'kwopt': [['s', ['i', 2]]]},
     {'req': ['x'], 'opt': [['y', ['i', 1]]], 'kwopt': [['s', ['i', 2]]], 'kwreq': ['r'], 'varkw': True},
+    {'req': ['x'], 'varargs': True, 'kwopt': [['s', ['i', 0]]]},      # extra positionals next to a keyword-only parameter
     {'varargs': True},                       # purely variadic: the key is nothing but the flattened arguments
     {'varargs': True, 'varkw': True},
 ]
@@ -211,6 +212,7 @@ def op_table(npool):
         'redecorate': st.just(['redecorate']),
         'reopen': st.just(['reopen']),
         'dumpreopen': st.just(['dumpreopen']),
+        'dumpswitch': st.just(['dumpswitch']),
         'fork': st.lists(st.tuples(st.just('call'), idx, form, rseed).map(list), min_size=1, max_size=5).map(lambda x: ['fork', x]),
         'clear': st.just(['clear']),
         'clearkeep': st.just(['clearkeep']),
@@ -237,7 +239,7 @@ def op_lists(draw, weights, npool, min_ops, max_ops):
 
 
 DEFAULT_WEIGHTS = {'call': 12, 'hammer': 0, 'dump': 1, 'load': 1, 'dumpk': 1, 'loadk': 1, 'clear': 1,
-                   'clearkeep': 1, 'arch_off': 1, 'arch_on': 1, 'arch_query': 0, 'akeys': 0, 'lookup': 0, 'key': 0, 'awrite': 0, 'burst': 0, 'sweep': 0, 'attach': 0, 'redecorate': 0, 'reopen': 0, 'fork': 0, 'dumpreopen': 0}
+                   'clearkeep': 1, 'arch_off': 1, 'arch_on': 1, 'arch_query': 0, 'akeys': 0, 'lookup': 0, 'key': 0, 'awrite': 0, 'burst': 0, 'sweep': 0, 'attach': 0, 'redecorate': 0, 'reopen': 0, 'fork': 0, 'dumpreopen': 0, 'dumpswitch': 0}
 
 
 @st.composite
